@@ -42,6 +42,7 @@ func (w *World) extraChecks(id string, opts *RunOpts) *Extra {
 		w.flagTable(opts, ex)
 	}
 	if id == "C12" {
+		w.envSweep(id, opts, ex)
 		w.mapRanges(opts, ex)
 	}
 	if id == "C18" {
